@@ -49,11 +49,13 @@ struct Job {
     /// most k deviations from the default schedule (delay bounding; no cache,
     /// hence no assumption about what the threads share).
     bound: Option<usize>,
+    /// write every input file WITHOUT a newline after its last row
+    nonl: bool,
 }
 
 impl Job {
     fn to_json(&self) -> Value {
-        json!({"set": self.set, "mode": self.mode, "files": self.files, "batch": self.batch, "fd": self.fd, "threads": self.threads, "explore": self.explore, "cap_s": self.cap_s, "bound": self.bound})
+        json!({"set": self.set, "mode": self.mode, "files": self.files, "batch": self.batch, "fd": self.fd, "threads": self.threads, "explore": self.explore, "cap_s": self.cap_s, "bound": self.bound, "nonl": self.nonl})
     }
     fn from_json(v: &Value) -> Job {
         Job {
@@ -66,6 +68,7 @@ impl Job {
             explore: v["explore"].as_bool().unwrap(),
             cap_s: v["cap_s"].as_u64().unwrap_or(600),
             bound: v["bound"].as_u64().map(|b| b as usize),
+            nonl: v["nonl"].as_bool().unwrap_or(false),
         }
     }
     fn describe(&self) -> String {
@@ -74,7 +77,7 @@ impl Job {
             if self.set { "set" } else { "map" },
             self.mode, self.files, self.batch, self.fd, self.threads,
             match self.bound { Some(k) => format!(" [stateless, <= {} deviations from the default schedule]", k), None => String::new() }
-        )
+        ) + if self.nonl { " [no final newline in the input files]" } else { "" }
     }
     /// The reference model of the merge.
     fn model(&self) -> Vec<(Vec<u8>, u64)> {
@@ -125,9 +128,11 @@ fn write_inputs(job: &Job, tag: &str) -> Vec<String> {
     for (i, f) in job.files.iter().enumerate() {
         let p = format!("{}/in-{}-{}.txt", dir, tag, i);
         let mut s = String::new();
-        for r in f {
+        for (ri, r) in f.iter().enumerate() {
             s.push_str(r);
-            s.push('\n');
+            if !(job.nonl && ri + 1 == f.len()) {
+                s.push('\n');
+            }
         }
         std::fs::write(&p, s).unwrap();
         paths.push(p);
@@ -503,10 +508,10 @@ fn explore_jobs(tier: Tier) -> Vec<Job> {
                 if thorough && huge && ii == 1 {
                     continue;
                 }
-                v.push(Job { set: false, mode: mode.into(), files: vec![inp.clone()], batch, fd, threads, explore: true, cap_s: cap, bound: None });
+                v.push(Job { set: false, mode: mode.into(), files: vec![inp.clone()], batch, fd, threads, explore: true, cap_s: cap, bound: None, nonl: false });
             }
         }
-        v.push(Job { set: true, mode: "sum".into(), files: vec![set_input.clone()], batch, fd, threads, explore: true, cap_s: cap, bound: None });
+        v.push(Job { set: true, mode: "sum".into(), files: vec![set_input.clone()], batch, fd, threads, explore: true, cap_s: cap, bound: None, nonl: false });
     }
     // stateless, deviation-bounded exploration (no state cache, so no
     // assumption that the threads interact through the channels only)
@@ -514,18 +519,18 @@ fn explore_jobs(tier: Tier) -> Vec<Job> {
         let inp = map_inputs[0].clone();
         let bounded: Vec<(u32, u32, u32, usize)> = if thorough { vec![(2, 2, 2, 3), (2, 3, 2, 3), (2, 2, 3, 2), (1, 2, 2, 2), (4, 2, 3, 3), (1, 4, 3, 2), (5, 2, 2, 4)] } else { vec![(2, 2, 2, 2), (2, 3, 2, 2), (2, 2, 3, 2), (5, 2, 2, 3)] };
         for (batch, fd, threads, k) in bounded {
-            v.push(Job { set: false, mode: "sum".into(), files: vec![inp.clone()], batch, fd, threads, explore: true, cap_s: cap, bound: Some(k) });
+            v.push(Job { set: false, mode: "sum".into(), files: vec![inp.clone()], batch, fd, threads, explore: true, cap_s: cap, bound: Some(k), nonl: false });
         }
     }
     // two input files
-    v.push(Job { set: false, mode: "sum".into(), files: vec![vec!["a,1".into(), "b,5".into()], vec!["a,2".into(), "c,7".into(), "b,1".into()]], batch: 2, fd: 2, threads: 2, explore: true, cap_s: cap, bound: None });
+    v.push(Job { set: false, mode: "sum".into(), files: vec![vec!["a,1".into(), "b,5".into()], vec!["a,2".into(), "c,7".into(), "b,1".into()]], batch: 2, fd: 2, threads: 2, explore: true, cap_s: cap, bound: None, nonl: false });
     // (thorough) four batches, fd-limit 3: which three batch FSTs meet in the first union
     // depends on the order in which the workers report (12 groupings); the key
     // k is in three of the four batches
     if thorough {
-        v.push(Job { set: false, mode: "sum".into(), files: vec![vec!["w,8".into(), "k,1".into(), "k,2".into(), "k,4".into()]], batch: 1, fd: 3, threads: 2, explore: true, cap_s: cap, bound: None });
-        v.push(Job { set: false, mode: "max".into(), files: vec![vec!["w,8".into(), "k,1".into(), "k,2".into(), "k,4".into()]], batch: 1, fd: 3, threads: 2, explore: true, cap_s: cap, bound: None });
-        v.push(Job { set: false, mode: "min".into(), files: vec![vec!["k,1".into(), "k,2".into(), "w,8".into(), "k,4".into()]], batch: 1, fd: 3, threads: 2, explore: true, cap_s: cap, bound: None });
+        v.push(Job { set: false, mode: "sum".into(), files: vec![vec!["w,8".into(), "k,1".into(), "k,2".into(), "k,4".into()]], batch: 1, fd: 3, threads: 2, explore: true, cap_s: cap, bound: None, nonl: false });
+        v.push(Job { set: false, mode: "max".into(), files: vec![vec!["w,8".into(), "k,1".into(), "k,2".into(), "k,4".into()]], batch: 1, fd: 3, threads: 2, explore: true, cap_s: cap, bound: None, nonl: false });
+        v.push(Job { set: false, mode: "min".into(), files: vec![vec!["k,1".into(), "k,2".into(), "w,8".into(), "k,4".into()]], batch: 1, fd: 3, threads: 2, explore: true, cap_s: cap, bound: None, nonl: false });
     }
     v
 }
@@ -545,21 +550,48 @@ fn grid_jobs(tier: Tier) -> Vec<Job> {
                         }
                         let modes: Vec<&str> = if set { vec!["sum"] } else { vec!["sum", "max", "min"] };
                         for mode in modes {
-                            v.push(Job { set, mode: mode.into(), files: vec![inp.clone()], batch, fd, threads, explore: false, cap_s: 60, bound: None });
+                            v.push(Job { set, mode: mode.into(), files: vec![inp.clone()], batch, fd, threads, explore: false, cap_s: 60, bound: None, nonl: false });
                             if inp.len() >= 2 && fd == 2 && threads <= 2 {
                                 let (a, b) = inp.split_at(inp.len() / 2);
-                                v.push(Job { set, mode: mode.into(), files: vec![a.to_vec(), b.to_vec()], batch, fd, threads, explore: false, cap_s: 60, bound: None });
+                                v.push(Job { set, mode: mode.into(), files: vec![a.to_vec(), b.to_vec()], batch, fd, threads, explore: false, cap_s: 60, bound: None, nonl: false });
                                 // an empty input file in first, middle and last position
                                 if threads == 1 && batch <= 2 {
-                                    v.push(Job { set, mode: mode.into(), files: vec![vec![], inp.clone()], batch, fd, threads, explore: false, cap_s: 60, bound: None });
-                                    v.push(Job { set, mode: mode.into(), files: vec![a.to_vec(), vec![], b.to_vec()], batch, fd, threads, explore: false, cap_s: 60, bound: None });
-                                    v.push(Job { set, mode: mode.into(), files: vec![inp.clone(), vec![]], batch, fd, threads, explore: false, cap_s: 60, bound: None });
+                                    v.push(Job { set, mode: mode.into(), files: vec![vec![], inp.clone()], batch, fd, threads, explore: false, cap_s: 60, bound: None, nonl: false });
+                                    v.push(Job { set, mode: mode.into(), files: vec![a.to_vec(), vec![], b.to_vec()], batch, fd, threads, explore: false, cap_s: 60, bound: None, nonl: false });
+                                    v.push(Job { set, mode: mode.into(), files: vec![inp.clone(), vec![]], batch, fd, threads, explore: false, cap_s: 60, bound: None, nonl: false });
                                 }
                             }
                         }
                     }
                 }
             }
+        }
+    }
+    // input files whose last row has no trailing newline (one, two and three files)
+    for set in [false, true] {
+        for inp in all_inputs(set, 3) {
+            if inp.len() < 2 {
+                continue;
+            }
+            let (a, b) = inp.split_at(inp.len() / 2);
+            let modes: Vec<&str> = if set { vec!["sum"] } else { vec!["sum", "min"] };
+            for mode in modes {
+                for files in [vec![inp.clone()], vec![a.to_vec(), b.to_vec()], vec![a.to_vec(), vec![], b.to_vec()]] {
+                    v.push(Job { set, mode: mode.into(), files, batch: 2, fd: 2, threads: 2, explore: false, cap_s: 60, bound: None, nonl: true });
+                }
+            }
+        }
+    }
+    // large numbers of batches (default schedule): rounds with 60..260 items
+    for n in [60usize, 64, 65, 66, 67, 68, 69, 70, 100, 129, 200, 260] {
+        for (fd, threads) in [(2u32, 1u32), (2, 2), (3, 3), (4, 4), (15, 2)] {
+            if !thorough && n > 70 && (fd, threads) != (2, 2) && (fd, threads) != (15, 2) {
+                continue;
+            }
+            let distinct: Vec<String> = (0..n).map(|i| format!("k{:03},{}", (i * 263) % n, i + 1)).collect();
+            v.push(Job { set: false, mode: "sum".into(), files: vec![distinct], batch: 1, fd, threads, explore: false, cap_s: 120, bound: None, nonl: false });
+            let lines: Vec<String> = (0..n).map(|i| format!("k{:03}", (i * 7) % (n - 3))).collect();
+            v.push(Job { set: true, mode: "sum".into(), files: vec![lines], batch: 1, fd, threads, explore: false, cap_s: 120, bound: None, nonl: false });
         }
     }
     // many batches (default schedule): N rows, batch size 1, every N up to 24
@@ -577,16 +609,16 @@ fn grid_jobs(tier: Tier) -> Vec<Job> {
                 }
                 // distinct keys (bytes must equal the sorted build) ...
                 let distinct: Vec<String> = (0..n).map(|i| format!("k{:02},{}", (i * 41) % n, i + 1)).collect();
-                v.push(Job { set: false, mode: "sum".into(), files: vec![distinct], batch: 1, fd, threads, explore: false, cap_s: 60, bound: None });
+                v.push(Job { set: false, mode: "sum".into(), files: vec![distinct], batch: 1, fd, threads, explore: false, cap_s: 60, bound: None, nonl: false });
                 // ... and every key occurring in about three batches
                 if fd == 3 || thorough {
                     let rep: Vec<String> = (0..n).map(|i| format!("k{:02},{}", i % ((n + 2) / 3), i + 1)).collect();
                     for mode in ["sum", "max", "min"] {
-                        v.push(Job { set: false, mode: mode.into(), files: vec![rep.clone()], batch: 1, fd, threads, explore: false, cap_s: 60, bound: None });
+                        v.push(Job { set: false, mode: mode.into(), files: vec![rep.clone()], batch: 1, fd, threads, explore: false, cap_s: 60, bound: None, nonl: false });
                     }
                 }
                 let lines: Vec<String> = (0..n).map(|i| format!("k{:02}", (i * 5) % (n - 2))).collect();
-                v.push(Job { set: true, mode: "sum".into(), files: vec![lines], batch: 1, fd, threads, explore: false, cap_s: 60, bound: None });
+                v.push(Job { set: true, mode: "sum".into(), files: vec![lines], batch: 1, fd, threads, explore: false, cap_s: 60, bound: None, nonl: false });
             }
         }
     }
@@ -916,7 +948,7 @@ fn main() {
         tier,
         st,
         &rep,
-        "SCHED: the real cmd::map::run / cmd::set::run (merge.rs, util.rs, app.rs included by path) run in-process; every channel send/receive, spawn and thread exit is a scheduling point; for each listed (input, batch size, fd-limit, threads, merge mode) ALL interleavings are explored with happens-before state caching; additionally, for some configurations, every schedule with at most k deviations from the default schedule (k = 1..3, delay bounding) is explored statelessly (no cache, hence no assumption about shared state); in every complete execution: exit Ok, no deadlock, every temp file created once, output opens, verifies, conforms to the v3 format (independent decoder), content == model merge (sum/max/min per key over all rows; distinct lines for sets), bytes identical across all schedules; configuration grid under the default schedule: every row sequence of length <= 3 (thorough 4) over {a,1 a,2 b,1 b,2} (sets: {a,b,ab}) x batch 1..R x fd-limit 2..4 x threads 1..4 x 3 modes x one/two/three input files (incl. an empty file in first, middle and last position); many-batches family: 5..24 (thorough 40) rows with batch size 1 x fd-limit 2..4 x threads {1,2,4,8,16} with distinct keys, keys repeated in three batches (3 modes) and line sets; plus byte identity with the --sorted build and a library build for inputs without repeated keys; the real binary free-running on a subset. non-trivial = distinct happens-before states of explored configurations".into(),
+        "SCHED: the real cmd::map::run / cmd::set::run (merge.rs, util.rs, app.rs included by path) run in-process; every channel send/receive, spawn and thread exit is a scheduling point; for each listed (input, batch size, fd-limit, threads, merge mode) ALL interleavings are explored with happens-before state caching; additionally, for some configurations, every schedule with at most k deviations from the default schedule (k = 1..3, delay bounding) is explored statelessly (no cache, hence no assumption about shared state); in every complete execution: exit Ok, no deadlock, every temp file created once, output opens, verifies, conforms to the v3 format (independent decoder), content == model merge (sum/max/min per key over all rows; distinct lines for sets), bytes identical across all schedules; configuration grid under the default schedule: every row sequence of length <= 3 (thorough 4) over {a,1 a,2 b,1 b,2} (sets: {a,b,ab}) x batch 1..R x fd-limit 2..4 x threads 1..4 x 3 modes x one/two/three input files (incl. an empty file in first, middle and last position); input files without a final newline; rounds of 60..260 batches (default schedule; deadlocks are detected as 'no enabled thread'); many-batches family: 5..24 (thorough 40) rows with batch size 1 x fd-limit 2..4 x threads {1,2,4,8,16} with distinct keys, keys repeated in three batches (3 modes) and line sets; plus byte identity with the --sorted build and a library build for inputs without repeated keys; the real binary free-running on a subset. non-trivial = distinct happens-before states of explored configurations".into(),
         vec![
             "threads of merge.rs interact only through the channels (immutable Arcs otherwise); files are written by one batch and read only in later generations; checked by the unique-file-name trace".into(),
             "two prefixes with equal per-thread histories (incl. identities of received messages) are the same Mazurkiewicz trace and have the same futures".into(),
